@@ -565,6 +565,19 @@ func checkC12(c *Ctx) *core.Result {
 			r.Fail("K2", core.QualName(fn), expr, p.Pos(st.Pos()), "the function that counts `--x` is not the lexer dispatched for '-'")
 		}
 	}
+	// K2 (third byte): with the ANSI flag set, a second dash and at least one more byte,
+	// the `--x` counter is incremented exactly for the bytes x the white-space predicate
+	// rejects (`-- ` is a comment in every dialect and must not open the MySQL re-parse;
+	// `--x` with any other x must).  Decided by constant propagation of the dash lexer with
+	// pos = 0, length = 3, input[1] = '-', flags&ANSI = ANSI and input[2] pinned to each of
+	// the 256 bytes; one-byte predicates called on input[2] are tabulated.
+	if isW := a.FnOpt("sql.isWhite"); isW != nil {
+		if wtab, err := tables.TabulateBytePred(p, isW); err == nil {
+			for _, st := range incSites[ddx] {
+				ddxThirdByteRule(p, a, r, st, ansi, wtab)
+			}
+		}
+	}
 	for _, st := range incSites[hash] {
 		fn := st.Parent()
 		if disp != nil && len(disp.Table) == 256 {
@@ -1203,4 +1216,115 @@ func strCoreRoles(p *core.Program, a *Anchors, fn *ssa.Function) (posP, offP, le
 		return nil, nil, nil, fmt.Sprintf("%s: no (pos, offset) parameter pair recognised at its call sites", fn.Name())
 	}
 	return posP, offP, lenP, ""
+}
+
+// ddxThirdByteRule: see the K2 (third byte) comment in checkC12.
+func ddxThirdByteRule(p *core.Program, a *Anchors, r *core.Result, st *ssa.Store, ansi int64, wtab [256]tables.Val) {
+	fn := st.Parent()
+	base := map[ssa.Value]interface{}{}
+	var third []ssa.Value
+	type predCall struct {
+		call *ssa.Call
+		tab  [256]tables.Val
+	}
+	var preds []predCall
+	offsetOf := func(ix ssa.Value) (int64, bool) {
+		bo, ok := ix.(*ssa.BinOp)
+		if !ok || bo.Op != token.ADD || !a.loadsField(bo.X, "sql.state.pos") {
+			return 0, false
+		}
+		return ssax.ConstInt(bo.Y)
+	}
+	isThird := func(v ssa.Value) bool {
+		if cv, ok := v.(*ssa.Convert); ok {
+			v = cv.X
+		}
+		for _, t := range third {
+			if t == v {
+				return true
+			}
+		}
+		return false
+	}
+	for _, b := range fn.Blocks {
+		for _, ins := range b.Instrs {
+			switch x := ins.(type) {
+			case *ssa.UnOp:
+				if a.loadsField(x, "sql.state.pos") {
+					base[x] = int64(0)
+				} else if a.loadsField(x, "sql.state.length") {
+					base[x] = int64(3)
+				}
+			case *ssa.Index:
+				if !a.loadsField(x.X, "sql.state.input") {
+					continue
+				}
+				if k, ok := offsetOf(x.Index); ok && k == 1 {
+					base[x] = int64('-')
+				} else if ok && k == 2 {
+					third = append(third, x)
+				}
+			case *ssa.BinOp:
+				if x.Op == token.AND && a.loadsField(x.X, "sql.state.flags") {
+					if k, ok := ssax.ConstInt(x.Y); ok && k == ansi {
+						base[x] = ansi
+					}
+				}
+			}
+		}
+	}
+	for _, b := range fn.Blocks {
+		for _, ins := range b.Instrs {
+			if c, ok := ins.(*ssa.Call); ok {
+				if f := c.Common().StaticCallee(); f != nil && p.InModule(f) && len(c.Common().Args) == 1 && isThird(c.Common().Args[0]) {
+					if tab, err := tables.TabulateBytePred(p, f); err == nil {
+						preds = append(preds, predCall{c, tab})
+					}
+				}
+			}
+		}
+	}
+	expr := "`--x` counter as a function of x"
+	if len(third) == 0 {
+		r.Note("K2 third byte: the dash lexer does not read input[pos+2] directly (rule not evaluated)")
+		return
+	}
+	var wrong []string
+	for x := 0; x < 256; x++ {
+		pins := map[ssa.Value]interface{}{}
+		for v, c := range base {
+			pins[v] = c
+		}
+		for _, t := range third {
+			pins[t] = int64(x)
+		}
+		for _, pc := range preds {
+			pins[pc.call] = pc.tab[x]
+		}
+		sc := ssax.RunSCCPPinned(fn, pins, p.Pkg.TypesSizes)
+		// decided only when every executable branch has a known condition
+		for _, b := range fn.Blocks {
+			if !sc.ExecBlock[b] || len(b.Instrs) == 0 {
+				continue
+			}
+			if iff, ok := b.Instrs[len(b.Instrs)-1].(*ssa.If); ok {
+				if _, known := sc.ValueOf(iff.Cond); !known {
+					r.Note(fmt.Sprintf("K2 third byte: branch %s of %s is not decided by the pinned values (rule not evaluated)", core.Short(ssax.Canon(iff.Cond)), fn.Name()))
+					return
+				}
+			}
+		}
+		white, _ := wtab[x].(bool)
+		if counted := sc.ExecBlock[st.Block()]; counted == white {
+			wrong = append(wrong, fmt.Sprintf("%#02x(counted=%v, white=%v)", x, counted, white))
+		}
+	}
+	if len(wrong) == 0 {
+		r.OK("K2", core.QualName(fn), expr, p.Pos(st.Pos()), "counted for exactly the 256 − |white| bytes the white-space predicate rejects")
+		return
+	}
+	if len(wrong) > 6 {
+		wrong = append(wrong[:6], fmt.Sprintf("… %d bytes in all", len(wrong)))
+	}
+	r.Fail("K2", core.QualName(fn), expr, p.Pos(st.Pos()), "the MySQL re-parse gate disagrees with the white-space predicate on the byte after `--`: "+strings.Join(wrong, ", ")+": `--`+white space must be a comment in every dialect (no re-parse), `--`+anything else must request the MySQL reading")
 }
